@@ -114,6 +114,18 @@ func sameValue(a, b ssa.Value) bool {
 	if a == b {
 		return true
 	}
+	// two calls of the same pure typed accessor on the same value
+	if ca, ok := a.(*ssa.Call); ok {
+		if cb, ok := b.(*ssa.Call); ok {
+			fa, fb := ca.Call.StaticCallee(), cb.Call.StaticCallee()
+			if fa != nil && fa == fb && len(ca.Call.Args) == 1 && len(cb.Call.Args) == 1 {
+				n := SSAFuncName(fa)
+				if strings.HasPrefix(n, "pkg/mlrval.Mlrval.Acquire") {
+					return sameValue(ca.Call.Args[0], cb.Call.Args[0])
+				}
+			}
+		}
+	}
 	ua, ok1 := a.(*ssa.UnOp)
 	ub, ok2 := b.(*ssa.UnOp)
 	if ok1 && ok2 && ua.Op == token.MUL && ub.Op == token.MUL {
